@@ -30,6 +30,14 @@ impl<'a> PreReleaseProcessor<'a> {
     }
 
     fn is_var_set(&self, var: &Var) -> bool {
+        // A label seen without a number leaves its value unset; the schema remembers that it was seen
+        if self
+            .schema
+            .extra_core()
+            .contains(&Component::Var(var.clone()))
+        {
+            return true;
+        }
         match var {
             Var::PreRelease => self.vars.pre_release.is_some(),
             Var::Epoch => self.vars.epoch.is_some(),
